@@ -450,6 +450,40 @@ def corrections(c, cores):
                 ok = sub_index(arg) == 1
                 (ck.ok if ok else lambda r, w, t: ck.violate(r, w, t, "C02.correction:%s:threshold" % f.pq))("C02.correction", f.loc(n), "%s: correction threshold %s is the victim's sub-index-1 half handle" % (f.name, estr(arg)))
         ck.count("correction_sites", len(sites))
+    # delete_vertex_core: the renumbering threshold is the position that is erased.  Under fast deletion the victim has been
+    # swapped to the end and the local handle re-pointed; a threshold that still names the parameter shifts every handle above
+    # the *requested* vertex although the last one was removed (round 5, C02i)
+    import re
+    from .canon import Canon
+    f = cores["Vertex"]
+    cn = Canon(f)
+    pos = set()
+    for b, i, x in f.tops():
+        m = re.search(r"vertex_deleted_\.erase\(.*vertex_deleted_\.begin\(\) \+ (\w+)\.u?idx\(\)", cn.s(x))
+        if m and b in f.reach():
+            pos.add(m.group(1))
+    if len(pos) != 1:
+        ck.cannot_judge("C02.correction %s: delete_vertex_core: erase position of vertex_deleted_ not recognised (%s)" % (f.where, sorted(pos)))
+    else:
+        E = pos.pop()
+        thr = []
+        for b, i, x in f.tops():
+            if b not in f.reach():
+                continue
+            m = re.search(r"VHandleCorrection\((.+?)\)$", cn.s(x).strip())
+            if m:
+                thr.append((x, m.group(1).strip()))
+        for b in f.reach():
+            t = f.term(b)
+            if t and t.get("cond"):
+                m = re.fullmatch(r"\(.*\.(?:from|to)_vertex\(\)(?:\.u?idx\(\))? > (.+)\)", cn.s(t["cond"]))
+                if m:
+                    thr.append((t["cond"], m.group(1).strip()))
+        for x, tv in thr:
+            base_ = re.sub(r"\.u?idx\(\)$", "", tv.strip("()"))
+            ok = base_ == E
+            (ck.ok if ok else lambda r, w, t: ck.violate(r, w, t, "C02.correction:%s:threshold" % f.pq))("C02.correction", f.loc(x), "%s: the renumbering threshold %s is the erased position %s" % (f.name, tv, E))
+        ck.floor("vertex_core_thresholds", len(thr), 1)
 
 
 # ------------------------------------------------------------------------------------ C03
